@@ -18,7 +18,10 @@ var (
 		"100", "127", "128", "-128", "-129", "255", "256", "65535", "65536", "2147483647", "2147483648", "-2147483648", "4294967295", "4294967296",
 		"9007199254740992", "-9007199254740992", "1e2", "3.5", "-2", "7", "0.75", "1.25", "-0.0", "1E1"}
 	// Integers beyond float64 exactness (only where the property's domain allows typed integers / json.Number).
-	BigInts = []string{"9007199254740993", "-9007199254740993", "9223372036854775807", "-9223372036854775808", "18446744073709551615", "9223372036854775808"}
+	// (also decimals no float64 holds exactly, in plain and in exponent spelling: a json.Number must be compared as the exact
+	// value it spells, 1e-1 == 0.1, 1e23 == 100000000000000000000000, never through the nearest float64)
+	BigInts = []string{"9007199254740993", "-9007199254740993", "9223372036854775807", "-9223372036854775808", "18446744073709551615", "9223372036854775808",
+		"0.1", "1e-1", "1E-1", "0.3", "3e-1", "1e23", "100000000000000000000000", "0.7", "-9223372036854775809", "9223372036854775808.0", "92233720368547758080e-1"}
 )
 
 func Pick[T any](r *rand.Rand, xs []T) T { return xs[r.IntN(len(xs))] }
